@@ -115,11 +115,9 @@ func c16clientSide(c *core.Case, env *core.Env, st *c16state) {
 		zzsim.SetNode("client0")
 		lp, err := probe.CreateLent(nil, svcRef, rec.impl)
 		zzsim.SetNode("harness")
-		out := ""
-		if err == nil {
-			out = fmt.Sprintf("id=%d", lp.Proxy().ObjectID())
-		}
-		env.Return(h, out, err)
+		// (identifiers are kept out of the recorded texts: the check works
+		// on the records, and the texts feed the event fingerprint)
+		env.Return(h, "", err)
 		if err != nil {
 			return
 		}
@@ -133,7 +131,7 @@ func c16clientSide(c *core.Case, env *core.Env, st *c16state) {
 		if rec.slot-200 >= len(via) {
 			return
 		}
-		h2 := env.Invoke(a, "clend", fmt.Sprintf("slot%d id=%d", rec.slot, rec.id))
+		h2 := env.Invoke(a, "clend", fmt.Sprintf("slot%d", rec.slot))
 		err = via[rec.slot-200].Lend(lp)
 		env.Return(h2, "", err)
 		cs.mu.Lock()
@@ -155,7 +153,8 @@ func c16clientSide(c *core.Case, env *core.Env, st *c16state) {
 		if !ok || rec.nested {
 			return
 		}
-		tok := probe.Token{Client: int32(a), Seq: int32(i), Nonce: int64(id), Text: "t"}
+		_ = id
+		tok := probe.Token{Client: int32(a), Seq: int32(i), Nonce: int64(rec.slot), Text: "t"}
 		h := env.Invoke(a, "ccall", fmt.Sprintf("%s@slot%d", tokOf(tok).Key(), rec.slot))
 		ret, err := via[rec.slot-200].Relay(tok)
 		env.Return(h, tokOf(ret).String(), err)
@@ -167,7 +166,7 @@ func c16clientSide(c *core.Case, env *core.Env, st *c16state) {
 		if id == 0 {
 			return
 		}
-		h := env.Invoke(a, kind, fmt.Sprintf("slot%d id=%d", rec.slot, id))
+		h := env.Invoke(a, kind, fmt.Sprintf("slot%d", rec.slot))
 		cs.mu.Lock()
 		if rec.removeCall == 0 {
 			rec.removeCall = h.Call
